@@ -248,8 +248,18 @@ def run(chk):
             W = rng.normal(size=(N, kx + ky + kz)) * 10.0 ** rng.uniform(-7, 3, (1, kx + ky + kz))
             chk.count("knn_float.mixed_scales")
         Xf, Yf, Zf = W[:, :kx], W[:, kx:kx + ky], (W[:, kx + ky:] if cond else None)
-        blocks = [(tuple(Fraction(v) for v in Xf[i]), tuple(Fraction(v) for v in Yf[i]),
-                   tuple(Fraction(v) for v in Zf[i]) if cond else ()) for i in range(N)]
+        if t % 5 == 0:
+            # one block stored as int64 whole numbers (or float32), the others float64: the same points, other element types
+            blk = int(rng.integers(0, 3 if cond else 2))
+            cols = [kx, ky, kz][blk]
+            if rng.random() < 0.7:
+                stored = (rng.permutation(6 * N)[:N * cols].reshape(N, cols) - 3 * N).astype(np.int64)
+            else:
+                stored = [Xf, Yf, Zf][blk].astype(np.float32)
+            Xf, Yf, Zf = [stored if j == blk else a for j, a in enumerate((Xf, Yf, Zf))]
+            chk.count(f"knn_float.mixed_dtypes.block{blk}.{stored.dtype}")
+        blocks = [(tuple(Fraction(float(v)) for v in Xf[i]), tuple(Fraction(float(v)) for v in Yf[i]),
+                   tuple(Fraction(float(v)) for v in Zf[i]) if cond else ()) for i in range(N)]
         # undecided when two exact joint or marginal distances are closer than a few ulp: float comparison may differ
         ref, counts = knn_reference(blocks, metric, k, cond)
         raw = float(knn_conditional_mutual_information(Xf, Yf, Zf, metric=metric, k=k) if cond
@@ -377,15 +387,32 @@ def run(chk):
         kx, ky, kz = int(rng.integers(1, 4)), int(rng.integers(1, 4)), int(rng.integers(1, 4))
         W_ = rng.normal(size=(N, kx + ky + kz)) @ rng.normal(size=(kx + ky + kz, kx + ky + kz)) + rng.normal(size=(1, kx + ky + kz))
         Xf, Yf, Zf = W_[:, :kx], W_[:, kx:kx + ky], W_[:, kx + ky:]
+        Xa, Ya, Za = Xf, Yf, Zf
+        if t % 4 == 0:
+            # blocks stored with different element types: one block holds distinct whole numbers in an integer dtype (or
+            # float32-representable numbers in float32), the others are float64 -- the sample is the same set of points
+            blk = (t // 4) % 3
+            cols = [kx, ky, kz][blk]
+            if (t // 4) % 2 == 0:
+                vals = (rng.permutation(4 * N)[:N * cols].reshape(N, cols) - 2 * N).astype(np.int64)
+                stored = vals
+            else:
+                stored = [Xf, Yf, Zf][blk].astype(np.float32)
+                vals = stored
+            Xa, Ya, Za = [stored if j == blk else a for j, a in enumerate((Xf, Yf, Zf))]
+            Xf, Yf, Zf = [vals.astype(np.float64) if j == blk else a for j, a in enumerate((Xf, Yf, Zf))]
+            chk.count(f"kde_float.mixed_dtypes.block{blk}.{stored.dtype}")
         which = str(rng.choice(["entropy", "mi", "cmi", "cmi"]))
+        if t % 4 == 0:
+            which = ["mi", "cmi"][(t // 4) % 2] if blk != 2 else "cmi"
         # a short call history on the SAME data: every call must still be the formula for ITS bandwidth
         bws = [str(rng.choice(["silverman", "scott"])) if rng.random() < 0.5 else float(rng.uniform(0.1, 3.0))
                for _ in range(int(rng.integers(1, 4)))]
         hist = []
         for bw in bws:
-            v = float(kde_entropy(Xf, bandwidth=bw) if which == "entropy" else
-                      kde_mutual_information(Xf, Yf, bandwidth=bw) if which == "mi" else
-                      kde_conditional_mutual_information(Xf, Yf, Zf, bandwidth=bw))
+            v = float(kde_entropy(Xa, bandwidth=bw) if which == "entropy" else
+                      kde_mutual_information(Xa, Ya, bandwidth=bw) if which == "mi" else
+                      kde_conditional_mutual_information(Xa, Ya, Za, bandwidth=bw))
             ref = kde_reference(which, Xf, Yf, Zf, bw)
             hist.append((bw, v))
             chk.case(key=("kdef", W_.tobytes(), str(bw), which, len(hist)), nontrivial=True)
